@@ -34,9 +34,17 @@ pub fn build(case: &Value, lperm: &[usize], aperm: &[usize]) -> Result<Built, St
     for a in case["root"]["apps"].as_array().unwrap() {
         rb = rb.appender(a.as_str().unwrap());
     }
-    let cfg = b
-        .build(rb.build(level_filter(case["root"]["lvl"].as_i64().unwrap())))
-        .map_err(|e| format!("strict build refused a valid configuration: {}", e))?;
+    // strict and lossy builds are both entry points to the same routing (the file loaders use the lossy one)
+    let root = rb.build(level_filter(case["root"]["lvl"].as_i64().unwrap()));
+    let cfg = if (lperm.first().copied().unwrap_or(0) + aperm[0]) % 2 == 1 {
+        let (cfg, errs) = b.build_lossy(root);
+        if !errs.is_empty() {
+            return Err(format!("lossy build reported errors for a valid configuration: {}", errs));
+        }
+        cfg
+    } else {
+        b.build(root).map_err(|e| format!("strict build refused a valid configuration: {}", e))?
+    };
     let reported = Arc::new(Counter::default());
     let rep = reported.clone();
     let logger = log4rs::Logger::new_with_err_handler(cfg, Box::new(move |_| {
